@@ -86,14 +86,15 @@ func runC18(p *Prog, r *Report) {
 			continue
 		}
 		names := strings.Join(c.Names(), ".")
-		site := c.Encl.Name() + "/file." + names
+		anchor := p.anchorFor(c.Encl, mapKeys(allowedFileFns))
+		site := anchor + "/file." + names
 		pos := p.PosStr(c.Outer.Pos())
-		if !allowedFileFns[c.Encl.Name()] {
+		if !allowedFileFns[anchor] {
 			r.Bad(site, pos, "a *jen.File is modified outside Get/renderFiles/appendGenerated: top-level declarations would escape the audit")
 			continue
 		}
 		first := c.Links[0].Name
-		switch c.Encl.Name() {
+		switch anchor {
 		case "generator.(*fileManager).Get":
 			if first == "HeaderComment" {
 				r.OK(site, pos, "header comment (C16)")
@@ -389,7 +390,14 @@ func qualOrigin(p *Prog, c *Chain, arg ast.Expr) (string, bool) {
 					continue
 				}
 				n++
-				if !isFieldSel(cs.Pkg.TypesInfo, cs.Call.Args[idx], modPath+"/config", "Common", "WrapErrorsUsing") && !passesWrapUsingParam(p, cs, cs.Call.Args[idx], 0) {
+				// a local that merely names the setting (`using := ctx.Conf.WrapErrorsUsing`) stands for it
+				argx := cs.Call.Args[idx]
+				if lid, isID := ast.Unparen(argx).(*ast.Ident); isID && cs.Encl != nil {
+					if def := localDef(cs.Pkg.TypesInfo, cs.Encl.Decl, cs.Pkg.TypesInfo.ObjectOf(lid)); def != nil {
+						argx = def
+					}
+				}
+				if !isFieldSel(cs.Pkg.TypesInfo, argx, modPath+"/config", "Common", "WrapErrorsUsing") && !passesWrapUsingParam(p, cs, cs.Call.Args[idx], 0) {
 					bad = p.PosStr(cs.Call.Pos())
 				}
 			}
